@@ -2,6 +2,11 @@ import TvCore.Model.Run
 import Driver.Oracles
 /-
   C11: replay of a c11 case on the Run model (K) and the property oracle on the observations (O).
+
+  Model variants (as in Driver/Main.lean: K=ok only for the code as it stands): the committed tree has the repair
+  of F-C11-1 (`Sim.fixLateRun := true`: `Sim::step` refuses to begin once the duration has elapsed and a client is
+  unfinished).  A case that replays only on the tree before that repair is a K mismatch
+  `variant=regressed:prefix-late-run`.  The oracle still recognises the finding (pattern F-C11-1) if it comes back.
 -/
 namespace TV.Driver.C11
 open TV.Run TV.Driver
@@ -213,15 +218,22 @@ def evalCase (lines : List String) : String × Bool × Bool :=
   let tick := kvNat cfgT "tick_us" 1000
   let dur := kvNat cfgT "duration_us" 10000
   let pairs := opObsPairs lines
-  let ks := pairs.foldl kStep { m := { tick := tick, duration := dur }, ro := kvGet cfgT "random_order" == some "1" }
-  let os := pairs.foldl oStep { tick := tick, duration := dur }
+  let ro := kvGet cfgT "random_order" == some "1"
+  -- K: the committed tree first (repair of F-C11-1 in); the tree before the repair only on mismatch
+  let ks := pairs.foldl kStep { m := { tick := tick, duration := dur, fixLateRun := true }, ro := ro }
   let kOk := ks.bad.isNone
+  let vname :=
+    if kOk then "fixed:late-run"
+    else if (pairs.foldl kStep { m := { tick := tick, duration := dur, fixLateRun := false }, ro := ro }).bad.isNone
+      then "regressed:prefix-late-run"
+    else "none"
+  let os := pairs.foldl oStep { tick := tick, duration := dur }
   let o := os.res
   let cov := (if os.sws.any (·.outcome == "err") then ["err"] else []) ++ (if os.sws.any (·.outcome == "panic") then ["panic"] else []) ++
              (if os.sws.any (·.outcome == "never") then ["never"] else []) ++ (if os.sws.any (fun s => s.atUs % tick == 0 && s.atUs > 0) then ["boundary"] else []) ++
              (if os.sws.any (·.spawned) then ["spawned"] else [])
   let (ln, kd) := match ks.bad with | some (l, d) => (l, d) | none => (0, "")
-  (s!"CASE {n} K={if kOk then "ok" else "mismatch"} O={if o.ok then "ok" else "fail"} variant={if kOk then "faithful" else "none"} pattern={o.pattern} line={if kOk then o.line else ln} cov={if cov.isEmpty then "-" else ",".intercalate cov} detail={if !o.ok then o.detail else kd}",
+  (s!"CASE {n} K={if kOk then "ok" else "mismatch"} O={if o.ok then "ok" else "fail"} variant={vname} pattern={o.pattern} line={if kOk then o.line else ln} cov={if cov.isEmpty then "-" else ",".intercalate cov} detail={if !o.ok then o.detail else kd}",
    kOk, o.ok)
 
 end TV.Driver.C11
